@@ -278,10 +278,13 @@ def execute(node, step, check_rows=False, check_unrelated=True):
                             ignore_upgrade_method=True)
     if not ok:
         # the signature the implementation simulates is not the documented
-        # effect of the mutation: the transition is judged like any other
-        # (the database is compared with the reference-evolved models) and
-        # the disagreement is carried along (C01 reports it; the children
-        # continue from the implementation's signature)
+        # effect of the mutation.  That alone violates none of the
+        # properties (evolve would refuse such an evolution), so it is only
+        # counted and listed in the evidence - but the transition is judged
+        # like any other (the database is compared with the
+        # reference-evolved models) and its children continue from the
+        # implementation's signature, so that whatever follows from the
+        # wrong signature (a rebuild that loses a column, ...) is seen
         tr.gate_diff = diffs
     tr.status = 'ok'
     tr.schema = O.schema_dump('default')
